@@ -198,6 +198,8 @@ def _report(ctx, rep, traces, source, div_total):
     for tid, (l, names) in sorted(first_obs.items(), key=lambda kv: kv[1][0]):
         tr = traces[tid - 1]
         ev = tr["ev"][l - 1]
+        if any(str(e[4]).startswith("err:StepTimeout") for e in tr["ev"][:l]):
+            continue      # the object was abandoned after a call that never returned (reported as clause "error")
         kind = tr.get("k") or tr.get("kind")
         ctx.violation(f"C11:obs-{names[0]}:{kind}",
                       dict(cls="C11", source=source, kind=kind, clause="obs:" + "+".join(names),
@@ -222,8 +224,13 @@ def run(ctx) -> None:
 
     # ---- 1. design level ----------------------------------------------------------------------
     t0 = time.time()
-    run_parts(ctx, prop + emit, par, timeout=6000 if thorough else 900)
-    ctx.extra["tlc_partitions"] = len(prop) + len(emit)
+    # termination once edits stop, as a liveness property under weakly fair cursor steps (no depth bound:
+    # a bounded number of edits, any number of steps); runs alongside the partitions
+    live = [Part(f"live-d{d}", "LinkedSetLive.tla", "LinkedSetLive.cfg",
+                 dict(NElem=3, MaxBox=3 + (3 if thorough else 2), NCur=2, MaxEdits=3 if thorough else 2, DirId=d))
+            for d in ((0, 1, 2) if thorough else (2,))]
+    run_parts(ctx, live + prop + emit, par, timeout=6000 if thorough else 900)
+    ctx.extra["tlc_partitions"] = len(prop) + len(emit) + len(live)
     ctx.extra["tlc_wall_s"] = round(time.time() - t0, 1)
 
     # ---- 2. behaviours -> real code -------------------------------------------------------------
@@ -317,6 +324,11 @@ def run(ctx) -> None:
     for k in nontriv:
         ctx._distinct.add("|".join(map(str, k)))
     ctx.extra["action_classes_replayed"] = len(keys_total)
+    ops: dict = {}
+    for k, v in keys_total.items():          # (family, op, ..., outcome, ...): every action of the model, by outcome
+        out = next((x for x in k[2:] if x in ("ok", "rej", "yield", "stop")), "?")
+        ops[f"{k[0]}:{k[1]}:{out}"] = ops.get(f"{k[0]}:{k[1]}:{out}", 0) + v
+    ctx.extra["last_action_by_outcome"] = dict(sorted(ops.items()))
     ctx.extra["divergences"] = div_total
     ctx.extra["traces_recorded"] = len(traces) + len(rtraces)
     ctx.extra["trace_events"] = sum(len(t["ev"]) for t in traces) + sum(len(t["ev"]) for t in rtraces)
